@@ -5,4 +5,5 @@ From Coq Require Import Extraction ExtrOcamlBasic ExtrOcamlZBigInt.
 Require Import V.base.Fld V.model.Zero V.model.Redist.
 Extraction Blacklist List String Nat.
 Extraction "model.ml" Zp scalar_of_read scalars_of_reads genesis_of_tape trace_history reconstruct
-  mixed_recon share_in hjky_cols hjky_party reconstructs_b recon share_of verify.
+  mixed_recon share_in hjky_cols hjky_party reconstructs_b recon share_of verify
+  round2 round3 r3_inbox rnd_of.
